@@ -9,6 +9,6 @@ Extraction "c13_model.ml"
   sql_read sql_read_user_tuple sql_read_userset_tuples sql_rswu
   wf_store keys_unique wf_read_filter key_full wf_usersets_filter
   flag_read_all_ignores_conditions
-  flag_usersets_conditions_ignored flag_usersets_duplicate_restrictions
   flag_rswu_duplicate_user_filter flag_rswu_empty_object_ids
-  obs.
+  obs
+  length (* keeps the datatype nat in the module: ocaml/conv.ml refers to it *).
